@@ -512,7 +512,7 @@ pub fn rngfaults<S: MlDsa>(seed: u64, nsweeps: usize, out: &mut Out) {
     for entry in ["try_keygen", "try_sign", "try_hash_sign"] {
         let r = guarded(|| {
             let mut outs: std::collections::HashSet<Vec<u8>> = std::collections::HashSet::new();
-            for _ in 0..4 {
+            for _ in 0..24 {
                 let o = match entry {
                     "try_keygen" => { let (pk, _) = S::keygen_os().unwrap(); S::pk_bytes(&pk) }
                     "try_sign" => S::sign_os(&sk, b"fresh", b"", "pure").unwrap(),
@@ -522,7 +522,7 @@ pub fn rngfaults<S: MlDsa>(seed: u64, nsweeps: usize, out: &mut Out) {
             }
             outs.len()
         });
-        let mut e = json!({"ev": "Fresh", "entry": entry, "set": S::SET, "calls": 4});
+        let mut e = json!({"ev": "Fresh", "entry": entry, "set": S::SET, "calls": 24});
         match r { Ok(n) => { e["distinct_outputs"] = json!(n); w.out.ev(e); } Err((loc, msg)) => { e["panic"] = json!(format!("{}: {}", loc, msg)); w.out.ev(e); } }
     }
 }
@@ -729,9 +729,65 @@ pub fn replay_behaviours<S: MlDsa>(seed: u64, file: &str, out: &mut Out) -> usiz
     n
 }
 
+/// Interleaved use of ALL THREE parameter sets in one process, with key material shared between them where the formats
+/// allow it (the same rho in public keys of different sets; the same seed): whatever one parameter set did before must not
+/// change what another one computes.  Each set's calls go to that set's own trace (three Worlds, one process).
+pub fn crossset(seed: u64, rounds: usize, dir: &str) {
+    let mut o44 = Out::create(&format!("{}/api_crossset_44.ndjson", dir));
+    let mut o65 = Out::create(&format!("{}/api_crossset_65.ndjson", dir));
+    let mut o87 = Out::create(&format!("{}/api_crossset_87.ndjson", dir));
+    {
+        let mut p = Prng::new(seed, 0x2c00);
+        let mut w44 = World::<Set44>::new(&mut o44);
+        let mut w65 = World::<Set65>::new(&mut o65);
+        let mut w87 = World::<Set87>::new(&mut o87);
+        for r in 0..rounds {
+            let xi = p.arr32();
+            let (p44, s44) = w44.keygen_seed(&xi);
+            let (p65, s65) = w65.keygen_seed(&xi);
+            let (p87, s87) = w87.keygen_seed(&xi);
+            let (b44, b65, b87) = (w44.ser(p44), w65.ser(p65), w87.ser(p87));
+            let m = msg_of(&mut p, r as u64);
+            let mode = MODES[r % 4];
+            let (d1, d2) = (p.arr32(), p.arr32());
+            // baseline in every set
+            let g44 = w44.sign(s44, &m, b"x", mode, &d1, Fault::None).unwrap_or_default();
+            let g65 = w65.sign(s65, &m, b"x", mode, &d1, Fault::None).unwrap_or_default();
+            let g87 = w87.sign(s87, &m, b"x", mode, &d1, Fault::None).unwrap_or_default();
+            // foreign public keys that carry ANOTHER set's rho (and otherwise random bytes), used between two uses of the honest keys
+            let mk = |rho: &[u8], len: usize, p: &mut Prng| { let mut b = p.bytes(len); b[..32].copy_from_slice(&rho[..32]); b };
+            let order = r % 3;
+            let f65 = w65.deser("pk", &mk(&b44, Set65::PK_LEN, &mut p)); let f87 = w87.deser("pk", &mk(&b44, Set87::PK_LEN, &mut p));
+            let f44 = w44.deser("pk", &mk(if order == 0 { &b65 } else { &b87 }, Set44::PK_LEN, &mut p));
+            let f65b = w65.deser("pk", &mk(&b87, Set65::PK_LEN, &mut p)); let f87b = w87.deser("pk", &mk(&b65, Set87::PK_LEN, &mut p));
+            if let Some(h) = f65 { let _ = w65.verify(h, &m, b"x", mode, &g65); }
+            let _ = w44.verify(p44, &m, b"x", mode, &g44);
+            let _ = w44.sign(s44, &m, b"x", mode, &d1, Fault::None);
+            if let Some(h) = f87 { let _ = w87.verify(h, &m, b"x", mode, &g87); }
+            let _ = w44.verify(p44, &m, b"x", mode, &g44);
+            let _ = w44.sign(s44, &m, b"y", mode, &d2, Fault::None);
+            if let Some(h) = f44 { let _ = w44.verify(h, &m, b"x", mode, &g44); }
+            let _ = w65.verify(p65, &m, b"x", mode, &g65);
+            let _ = w65.sign(s65, &m, b"x", mode, &d1, Fault::None);
+            let _ = w87.verify(p87, &m, b"x", mode, &g87);
+            let _ = w87.sign(s87, &m, b"x", mode, &d1, Fault::None);
+            if let Some(h) = f65b { let _ = w65.verify(h, &m, b"x", mode, &g65); }
+            let _ = w87.verify(p87, &m, b"x", mode, &g87);
+            if let Some(h) = f87b { let _ = w87.verify(h, &m, b"x", mode, &g87); }
+            let _ = w65.verify(p65, &m, b"x", mode, &g65);
+            let _ = w65.sign(s65, &m, b"y", mode, &d2, Fault::None);
+            // derived keys and re-loaded private keys after the interleaving
+            let q44 = w44.derive(s44); let _ = w44.ser(q44); let _ = w44.verify(q44, &m, b"x", mode, &g44);
+            let q87 = w87.derive(s87); let _ = w87.ser(q87); let _ = w87.verify(q87, &m, b"x", mode, &g87);
+        }
+    }
+    println!("api scenario=crossset events={}", o44.finish() + o65.finish() + o87.finish());
+}
+
 pub fn run(a: &Args) {
     let seed = a.u("seed", 1);
     let sc = a.s("scenario", "honest");
+    if sc == "crossset" { crossset(seed, a.u("rounds", 3) as usize, &a.s("out", "/verif/work/api")); return; }
     for set in a.sets() {
         let mut out = Out::create(&format!("{}/api_{}_{}.ndjson", a.s("out", "/verif/work/api"), sc, set));
         match sc.as_str() {
